@@ -231,8 +231,8 @@ theorem no_second_job (cfg : ArbCfg) (st : ArbSt) (p : PodA) (j : JobA)
 
 -- non-vacuity: a round over two waiting jobs on one node with per-node limit 1 admits the first, keeps the second
 example :
-    let cfg : ArbCfg := ⟨-1, 1, -1, -1, 3, [(1, 5)]⟩
-    let st : ArbSt := { pods := [⟨1, 1, 1, 1, true, false⟩, ⟨2, 1, 1, 1, true, false⟩],
+    let cfg : ArbCfg := { maxGlobal := -1, maxNode := 1, maxNs := -1, maxMigr := -1, maxUnav := 3, replicas := [(1, 5)] }
+    let st : ArbSt := { pods := [⟨1, 1, 1, 1, true, false, false, 0⟩, ⟨2, 1, 1, 1, true, false, false, 0⟩],
                         jobs := [⟨1, 1, 1, 0, false⟩, ⟨2, 2, 1, 0, false⟩], waiting := [1, 2] }
     (round cfg [] st [1, 2]).arbitrated = [1] ∧ (round cfg [] st [1, 2]).waiting = [2] := by decide
 
